@@ -5,15 +5,15 @@ impl Rng {
     pub fn next(&mut self) -> u64 { let mut x = self.0; x ^= x << 13; x ^= x >> 7; x ^= x << 17; self.0 = x; x }
     pub fn below(&mut self, n: usize) -> usize { (self.next() % n as u64) as usize }
 }
-const ATOMS: &[&str] = &["a", "foo", "nil", "t", "#t", "#f", "#nil", "12", "-7", "1.5", "1e3", "#xff", "\"s\"", "\"a\\n\\x41;b\"", "\"\u{3bb}\"", "#\\a", "#\\space", "#\\x41", ":k", "k:", "#:k", "\u{3bb}x", "+", "-", "...", "a.b", "?a", "#u8(1 2)", "#()", "()", "|", "1+"];
+const ATOMS: &[&str] = &["a", "foo", "nil", "t", "#t", "#f", "#nil", "12", "-7", "1.5", "1e3", "#xff", "\"s\"", "\"a\\n\\x41;b\"", "\"\u{3bb}\"", "#\\a", "#\\space", "#\\x41", ":k", "k:", "#:k", "\u{3bb}x", "+", "-", "...", "a.b", "?a", "#u8(1 2)", "#()", "()", "|", "1+", "#\\backspace", "#\\\u{3bb}", "-1a", "+.5", "1e999", "\"\\x3bb;\""];
 const TRIVIA: &[&str] = &[" ", " ", " ", "\n", "\t", "\r\n", " ; c\n", "\x0c", "  "];
 fn datum(r: &mut Rng, depth: usize, out: &mut String) {
     let k = if depth == 0 { 0 } else { r.below(10) };
     match k {
         0..=4 => out.push_str(ATOMS[r.below(ATOMS.len())]),
         5 | 6 => { let (o, c) = if r.below(4) == 0 { ("[", "]") } else { ("(", ")") }; out.push_str(o); let n = r.below(4);
-                   for i in 0..n { if i > 0 { out.push_str(TRIVIA[r.below(TRIVIA.len())]); } datum(r, depth - 1, out); }
-                   if n > 0 && r.below(5) == 0 { out.push_str(" . "); datum(r, depth - 1, out); } out.push_str(c); }
+                   for i in 0..n { if i > 0 { if r.below(12) > 0 { out.push_str(TRIVIA[r.below(TRIVIA.len())]); } } datum(r, depth - 1, out); }
+                   if n > 0 && r.below(5) == 0 { out.push_str([" . ", " . ", " . ", " .", " .\n", " .;c\n", ". ", " .\t"][r.below(8)]); datum(r, depth - 1, out); } out.push_str(c); }
         7 => { out.push_str("#("); let n = r.below(3); for i in 0..n { if i > 0 { out.push(' '); } datum(r, depth - 1, out); } out.push(')'); }
         _ => { out.push_str(["'", "`", ",", ",@"][r.below(4)]); datum(r, depth - 1, out); }
     }
